@@ -24,11 +24,31 @@ GROUPS = {
             "lang/statics/src/builtin.rs": "statics_builtin.rs",
         },
     },
+    "dynamics": {
+        "package": "zydeco-dynamics",
+        "mods": {
+            "lang/dynamics/src/impls.rs": "dynamics_impls.rs",
+        },
+        # drop elision of the by-value argument vectors (see harness/dynamics_impls.rs header);
+        # (regex, replacement, minimum number of matches) - fewer matches => inconclusive
+        "rewrites": {
+            "lang/dynamics/src/impls.rs": [
+                (r"args: Vec<ZValue>", "args: std::mem::ManuallyDrop<Vec<ZValue>>", 40),
+            ],
+            "lang/dynamics/src/builtin.rs": [
+                (r"args: Vec<SemValue>", "args: std::mem::ManuallyDrop<Vec<SemValue>>", 1),
+            ],
+            "lang/dynamics/src/eval.rs": [
+                (r"(BuiltinRuntime::invoke\(\s*role,\s*)args,", r"\1std::mem::ManuallyDrop::new(args),", 1),
+            ],
+        },
+    },
     "surface": {
         "package": "zydeco-surface",
         "mods": {
             "lang/surface/src/textual/lexer.rs": "surface_lexer.rs",
             "lang/surface/src/textual/escape.rs": "gen:surface_actions.rs",
+            "lang/surface/src/metadata.rs": "surface_metadata.rs",
         },
     },
 }
@@ -45,6 +65,7 @@ TRUSTED_BASE = [
 PROPERTIES = {
     "C05": {
         "level": "model_checking",
+        "requires_gen": ["surface_actions"],
         "explanation": (
             "Bounded model checking (Kani/CBMC) of the real literal-carrier, range-check and numeric host-operation "
             "code over fully symbolic operands: every i128 literal value against all 8 integer types, every binary64 "
